@@ -38,7 +38,7 @@ def valid_beat_duration(duration):
         while r != 1:
             if r % 2 != 0 or r < 1:
                 return False
-            r /= 2
+            r //= 2
         return True
 
 
